@@ -34,7 +34,7 @@ def boot_len(cfg):
     return _BOOT[key]
 
 
-def run_history(cfg, history, extra_choices=None, drain=None, max_points=1500):
+def run_history(cfg, history, extra_choices=None, drain=None, max_points=1500, final_check=None):
     """history: list of (events tuple, choices list for the segment that follows).  The last segment's
     choices may be partial (the rest defaults).  drain: list of event tuples appended afterwards (default schedule).
     Returns dict(world, canon, taken_by_segment, error, anomalies)."""
@@ -74,6 +74,8 @@ def run_history(cfg, history, extra_choices=None, drain=None, max_points=1500):
     except AssertionError as e:
         out["error"] = ("replay", str(e))
     finally:
+        if final_check is not None:
+            out["final"] = final_check(w)       # before the parked flows are torn down
         w.restore()
     # split choices by segment
     marks = s.segment_marks + [len(s.taken)]
